@@ -4,6 +4,7 @@ import (
 	"fmt"
 	"go/token"
 	"go/types"
+	"golang.org/x/tools/go/ssa"
 	"hash/fnv"
 	"math/big"
 	"regexp"
@@ -782,6 +783,35 @@ func (g *FnGen) evalCall(x ECall, ctx *EvalCtx) Val {
 			}
 		}
 		return Val{T: term, S: ph.S, Signed: ph.Signed, Go: ph.Go}
+	case "loophead":
+		// loophead(x): the value the source-level variable x had at the head of the innermost loop
+		// that encloses the current program point (in this iteration): the header phi named x
+		id, ok := x.Args[0].(EIdent)
+		if !ok {
+			efail("loophead takes a variable name")
+		}
+		var best *loopInfo
+		for _, li := range g.loops {
+			if li.blocks[g.curBlock] && (best == nil || len(li.blocks) < len(best.blocks)) {
+				best = li
+			}
+		}
+		if best == nil {
+			efail("loophead(%s) used outside a loop in %s", id.Name, g.name)
+		}
+		for _, ins := range best.header.Instrs {
+			phi, ok := ins.(*ssa.Phi)
+			if !ok {
+				break
+			}
+			if phi.Comment == id.Name {
+				if v, ok := g.vals[phi]; ok {
+					return v
+				}
+			}
+		}
+		efail("loophead(%s): the enclosing loop of %s carries no variable of that name", id.Name, g.name)
+		return Val{}
 	case "addrof":
 		// addrof(p.f) / addrof(p.f.g): the address of a field (or of a field nested in struct-valued
 		// fields) of the struct p points to; the same deterministic address term the executor gives
